@@ -21,7 +21,7 @@ META = {
         "callbacks do not catch the exceptions of their nested sends",
     ],
     "must_observe": ["faults", "dropped_tokens", "events_executed", "crash_points"],
-    "shard_timeout": {"quick": 400, "thorough": 3400},
+    "shard_timeout": {"quick": 900, "thorough": 3400},
 }
 
 PROFILE = {"n_states": (2, 4), "n_events": (1, 3), "extra_transitions": (1, 4), "p_multi_event": 0.2,
